@@ -42,9 +42,13 @@ type c18Scenario struct {
 	Group   bool     // use GroupLeaseManager instead of PartitionLeaseManager
 	FailOps bool
 	Reply   bool // transaction replies are separate scheduling points (effect at the server | reply seen by the caller)
+	Fine    bool // fine-grained part: LeaseManager.mu acquisitions are scheduling points too, oracle at quiescence only
 }
 
 func (sc c18Scenario) String() string {
+	if sc.Fine {
+		return fmt.Sprintf("%s|exp=%v|group=%v|fail=%v|fine", strings.Join(sc.Seqs, ","), sc.Expire, sc.Group, sc.FailOps)
+	}
 	if sc.Reply {
 		return fmt.Sprintf("%s|exp=%v|group=%v|fail=%v|reply-points", strings.Join(sc.Seqs, ","), sc.Expire, sc.Group, sc.FailOps)
 	}
@@ -132,7 +136,12 @@ func c18Body(sc c18Scenario) func(s *sched.Sched) {
 				}
 			}
 		}
-		s.StepHook = check
+		if !sc.Fine {
+			// (fine part: between an expiry and the manager's monitorSession the holder still believes it
+			// owns - the notification latency every lease scheme has - so only persistent double ownership,
+			// judged once everything has run, counts there)
+			s.StepHook = check
+		}
 		for i, b := range brokers {
 			i, b := i, b
 			seq := sc.Seqs[i]
@@ -362,6 +371,9 @@ func TestVerifC18(t *testing.T) {
 	replaying, rerr := vh.LoadReplay(&rp)
 	if rerr != nil {
 		t.Fatalf("HARNESS-ERROR replay: %v", rerr)
+	}
+	if replaying && rp.Scenario.Fine {
+		return // a replay of the fine-grained part
 	}
 	if replaying {
 		x := sched.RunOnce(t, sched.Config{}, rp.Choices, true, c18Body(rp.Scenario))
